@@ -26,7 +26,8 @@ REQUIRED = ["contract:Assertion.mvrs_to_data", "contract:Assertion.set_p_values"
             "data_values_checked", "u_checked:POLLING", "u_checked:CARD_COMPARISON", "u_checked:ONEAUDIT",
             "datum_equal_to_u_seen", "datum_zero_seen", "style_filter_checked", "cards_filtered_out_by_style",
             "test_u_checked", "positive_margin_assertions", "supermajority_u_assorter_not_1",
-            "stratum:uniform_pool_nonrepresentable_bound", "u_at_test_time_checked", "stale_u_before_set_p_values"]
+            "stratum:uniform_pool_nonrepresentable_bound", "u_at_test_time_checked", "stale_u_before_set_p_values",
+            "margin_revised_after_set_margin_from_cvrs"]
 ASSUMPTIONS = ["sample_threshold has been set by a draw (n_c >= 1) before mvrs_to_data is called under style",
                "the bound clause is asserted for every margin the simulator produces (also non-positive ones: the data are "
                "still inside [0,u])"]
@@ -235,6 +236,15 @@ def run_case(es, rec):
             for asn in con.assertions.values():
                 asn.test.u = 1.0 if rng.random() < 0.7 else asn.test.u * 0.75
         rec.count("stale_u_before_set_p_values")
+    if rng.random() < 0.3:
+        # the margin is revised after it was computed from the CVRs, by a route other than set_margin_from_cvrs (a margin
+        # taken from the reported tally, or a deliberately conservative one): data and bound must both follow the
+        # margin the assertion holds NOW
+        for con in sim.contests.values():
+            for asn in con.assertions.values():
+                if asn.margin is not None and asn.margin > 0:
+                    asn.margin = asn.margin * rng.choice((0.25, 0.5, 0.9))
+        rec.count("margin_revised_after_set_margin_from_cvrs")
     CALLS.clear()
     with np.errstate(all="ignore"):
         ok, pmax = rec.guard("c06.call:set_p_values", sim.L["Assertion"].set_p_values, sim.contests, m, c)
